@@ -38,6 +38,9 @@ META = {
         "explicit 4 h interval: starts on a 4 h boundary, instruments are listed without holes, bin-start hours are never missing "
         "(otherwise resample().first() invents NaN rows / later rows; not this property's subject)",
         "the effect of accepted buys/sells on cash and positions is taken as observed (C15's subject)",
+        "a Deliver record whose income is exactly 0 (payoff equal to the fee) counts as 'pays nothing'; the statement speaks of the "
+        "payout, not of the record",
+        "a generated book without a single row (every hour missing) is no market: the world is drawn again",
     ],
 }
 NSHARDS = 16
@@ -57,6 +60,10 @@ def plan(tier, seed):
 # ------------------------------------------------------------------------------------------------ world
 def _r(x, nd=4):
     return float(f"{x:.{nd}f}")
+
+
+class EmptyBook(Exception):
+    """the draw produced a book without a single row (outside the domain: a market needs data); drawn again."""
 
 
 class World:
@@ -247,6 +254,8 @@ class World:
                     "ask_iv": 55.0, "best_ask_price": asks[0][0], "best_ask_amount": asks[0][1],
                     "asks": asks, "bids": bids,
                 })
+        if not recs:  # every hour missing / nothing listed in the hours that are left: no book at all, not a market
+            raise EmptyBook()
         self.data = pd.DataFrame(recs).set_index(["time", "instrument_name"]).sort_index()
         self.book_hours = {h for (h, _n) in self.rows}
         # co-market range and price frame
@@ -393,7 +402,12 @@ def _blame(exc):
 
 # ------------------------------------------------------------------------------------------------ one case
 def one_case(mon, rng, c, mode):
-    w = World(rng, mode)
+    while True:
+        try:
+            w = World(rng, mode)
+            break
+        except EmptyBook:
+            mon.cls("world-redrawn(empty book)")
     dm, tok = w.market()
     mi = dm.market_info
     rec = Recorder(w, rng, mi)
